@@ -360,6 +360,14 @@ func (s *Service) getAggregatorsSignatureData(
 	}
 
 	for i, signature := range sigs {
+		if signature.IsZero() {
+			// No selection proof was obtained for this validator, so it cannot be an aggregator.
+			s.log.Warn().
+				Uint64("slot", uint64(slot)).
+				Uint64("validator_index", uint64(validatorIndices[i])).
+				Msg("Failed to obtain sync committee selection proof; received zero signature")
+			continue
+		}
 		// Hash the signature.
 		sigHash := sha256.New()
 		n, err := sigHash.Write(signature[:])
